@@ -64,6 +64,8 @@ Record case := {
   c_root : path;                        (* project root inside the disk tree, e.g. [proj] *)
   c_tree : list (path * node);          (* disk tree before Project.do *)
   c_change : change;                    (* what get_changes returned *)
+  c_stp : option nat;                   (* Project.do ran under a TaskHandle whose observer calls stop() during its
+                                           n-th notification (None: no task handle) *)
   o_announced : list path;              (* get_changed_resources(), rope paths *)
   o_compute_writes : nat;               (* audited writing events while the change was computed *)
   o_raised : bool;                      (* Project.do raised *)
@@ -98,9 +100,10 @@ Definition report1 (c : case) : N :=
   let m0 : fs := list_to_map (c_tree c) in
   let rc := realize (c_root c) (c_change c) in
   let s0 := Hist m0 [] [] 100 in
-  let '(r, tr) := trun repaired fuel true (notify quiet) Do rc m0 in
+  let k0 := Sched None (c_stp c) false false in
+  let '(r, tr) := trun repaired fuel true (notify k0) Do rc m0 in
   let mtr := audited tr in
-  let hd := history_do repaired fuel rc s0 quiet in
+  let hd := history_do repaired fuel rc s0 k0 in
   let '(raised, s1, cls, art) :=
     match hd with
     | HOk s1 _ => (false, s1, 0%N, false)
